@@ -257,6 +257,18 @@ def combinationsPoly (n degree : Nat) (io bias : Bool) : Option (List Mono) :=
   (pyRange (Slow.start v) (Slow.rangeHi v)).map
     (fun r => (List.range' r.1 r.2).flatMap (fun d => combs (Slow.combIo v) n d 0))
 
+/-- `ExtendedFeatures._transform_poly_slow` on a matrix given as its list of rows:
+`XP = numpy.empty((X.shape[0], n_output_features_)); for i, comb in enumerate(comb): XP[:, i] = X[:, comb].prod(1)`.
+Result = the list of output COLUMNS, each holding one value per input row.  The model only covers the loop whose
+single statement writes the whole column (`SlowFill.wholeColumns`, regenerated from the source); anything else
+(row blocks, masks) is not modelled and yields `none`. -/
+def transformPolySlow {α} (mul : α → α → α) (one : α) (X : List (Nat → α)) (n degree : Nat) (io bias : Bool) :
+    Option (List (List α)) :=
+  let v : Env := { degree := (degree : Int), n := (n : Int), io := io, bias := bias }
+  if SlowFill.wholeColumns v then
+    (combinationsPoly n degree io bias).map (fun ms => ms.map (fun m => X.map (fun x => m.foldl (fun acc i => mul acc (x i)) one)))
+  else none
+
 /-- what a column of the symbolic run denotes in any other instance -/
 def interp {β} (ops : Ops β) : Mono → β
   | [] => ops.one
